@@ -206,3 +206,33 @@ PROPERTIES["C03"] = {
                  ["VerifC03Go", "VerifC03Java", "VerifC03PHP", "VerifC03Python", "VerifC03TypeScript", "VerifC03Consolidate", "VerifC03FieldsSetDefault"],
                  "internal/zzverif/hchains", test_pkg_name="hchains", needs_leaf=True, repeat=400)],
 }
+
+
+# ---------------------------------------------------------------- C20
+
+def _c20_prepare(tmp, tier):
+    import subprocess
+    drv = _drv
+    gen = os.path.join(tmp, "zz_verif_c20_gen.go")
+    lst = os.path.join(tmp, "c20_entries.txt")
+    subprocess.run([os.path.join(drv.BUILD, "symgo"), "-dir", drv.REPO, "-gen-unions", gen, "-gen-list", lst,
+                    "-pkgs", "./internal/yaml,./internal/codegen"], check=True, env=drv.ENV)
+    return {"gen": gen, "entries": [l.strip() for l in open(lst) if l.strip()]}
+
+def _c20_runs(ctx):
+    return [Run("yaml", ["./internal/zzverif/hyaml"],
+                _h(("internal/zzverif/hyaml/zz_verif_c20.go", "harness/hyaml/zz_verif_c20.go"),
+                   ("internal/zzverif/hyaml/zz_verif_c20_gen.go", ctx["gen"])),
+                ctx["entries"] + ["VerifC20ObjectReference", "VerifC20FieldReference"], "internal/zzverif/hyaml", test_pkg_name="hyaml", needs_leaf=True)]
+
+PROPERTIES["C20"] = {
+    "level_text": "Bounded symbolic execution + SMT of the hand-written configuration unions: for EVERY struct of internal/yaml whose fields are all pointers and that has an "
+                  "As*(...) (T, error) dispatch method (list and member list read from go/types on this run: CompilerPass, BuilderRule, OptionRule, BuilderSelector, OptionSelector) "
+                  "the value is built with no member or exactly one member set (populated to depth 3, leaves symbolic): no member => error; a declared member is never rejected as "
+                  "`empty ...` and is dispatched to the action of its own type. Reference-string parsers: wrong number of dots => error, accepted strings round-trip.",
+    "level_note": "The claim is exact for the finite union structure. Outside the claim (not encodable): yaml.v3 KnownFields strictness at every depth and the equivalence of "
+                  "schemas/*.json (reflected by invopop/jsonschema) with the loaders.",
+    "bounds": {"unions": "none or exactly one member set, member payloads populated to depth 3 with symbolic leaves", "reference strings": "10 shapes incl. empty, leading/trailing/double dots, too many components"},
+    "prepare": _c20_prepare,
+    "runs": _c20_runs,
+}
